@@ -98,10 +98,10 @@ static std::string make_deep(int64_t kind, int64_t dsel, int64_t closed) {
 // ------------------------------------------------------------------ storage faults
 static const char *fault_name(int kind) {
     static const char *n[] = {"trunc", "flip", "byte_replace", "span_del", "span_dup", "ins_struct", "splice", "struct_swap", "struct_drop", "sep_dup", "literal_tamper",
-                              "number_tamper", "escape_tamper", "surrogate_tamper", "quote_drop", "key_replace", "nest_wrap", "ins_lenient_ws", "ins_nul", "trailer"};
+                              "number_tamper", "escape_tamper", "surrogate_tamper", "quote_drop", "key_replace", "nest_wrap", "ins_lenient_ws", "ins_nul", "trailer", "escape_run"};
     return n[kind];
 }
-static const int NFAULT = 20;
+static const int NFAULT = 21;
 static std::vector<size_t> positions(const std::string &b, const char *set) {
     std::vector<size_t> v;
     for (size_t i = 0; i < b.size(); i++) if (b[i] && strchr(set, b[i])) v.push_back(i);
@@ -209,6 +209,21 @@ static bool apply_fault(std::string &b, int kind, uint64_t x, uint64_t y, uint64
         }
         case 17: { char c = (char)(1 + y % 0x20); b.insert(x % (n + 1), 1, c); return true; }
         case 18: b.insert(x % (n + 1), 1, '\0'); return true;
+        case 20: {
+            // a run of truncated / bare escapes inside a string body that keeps its closing quote
+            auto v = positions(b, "\"");
+            if (v.size() < 2) return false;
+            size_t q = v[(x % (v.size() / 2)) * 2];          // an opening quote (approximately: quotes alternate)
+            size_t close = b.find('"', q + 1);
+            if (close == std::string::npos) return false;
+            static const char *piece[] = {"\\u", "\\u", "\\u1", "\\u12", "\\u123", "\\uD800", "\\"};
+            std::string run;
+            int k = 2 + (int)(y % 5);
+            for (int i = 0; i < k; i++) run += piece[r.below(r.chance(3, 4) ? 2 : 7)];
+            std::string pad((size_t)(y / 5 % 12), 'D');
+            b.insert(close, pad + run);
+            return true;
+        }
         default: {
             static const char *tr[] = {" ", "\n\t ", "x", " x", "]", ",", "\0x", " \0", "\0", "1", "//c", "}", "\"", " \0 ", "\0\0", "\xE9", "\xC2\xA0", " \xEF\xBB\xBF", "\x80", "\xFF "};
             static const size_t trl[] = {1, 3, 1, 2, 1, 1, 2, 2, 1, 1, 3, 1, 1, 3, 2, 1, 2, 4, 1, 2};
@@ -236,7 +251,7 @@ Plan gen_store_plan(const std::string &prop, uint64_t seed, int64_t run) {
     };
     auto add_fault = [&](bool biased) {
         int kind;
-        if (biased) { static const int ks[] = {7, 8, 9, 10, 11, 12, 13, 14, 15, 16, 0, 5, 19, 7, 8, 12, 13, 10}; kind = ks[r.below(18)]; }
+        if (biased) { static const int ks[] = {7, 8, 9, 10, 11, 12, 13, 14, 15, 16, 0, 5, 19, 7, 8, 12, 13, 10, 20, 20}; kind = ks[r.below(20)]; }
         else kind = (int)r.below(NFAULT);
         p.steps.push_back(mk("fault", {kind, R(r), R(r), R(r)}));
     };
